@@ -45,7 +45,7 @@ PROBES = ["enospc_first_write", "enospc_middle_write", "enospc_last_write", "sho
           "subdirectory", "strided_input", "int_input", "float32_input", "scale_factor", "one_element_array",
           "zero_d_array", "table_vector", "table_matrix", "csv_separator", "custom_separator", "python_int_value",
           "fault_in_first_call_of_writer", "call_after_failed_call_succeeds", "header_column_count_differs_from_rows",
-          "stale_log_file_present", "columns_not_in_logical_order", "vti_extension_appended"]
+          "stale_log_file_present", "columns_not_in_logical_order", "vti_extension_appended", "array_larger_than_64KiB"]
 # observation-only counters that are reported when non-zero but are not workload targets: fault_call_returned_normally
 # (an injected error was swallowed -- zero on a correct tree), header_is_raw_length / header_is_encoded_length
 FAULT_KINDS = ["enospc", "short_write", "eio_open"]
@@ -75,6 +75,8 @@ for _nx in range(1, 6):
                 DOMS.append((_nx, _ny, _nz))
 DOMS2 = [d for d in DOMS if d[2] == 0]
 DOMS3 = [d for d in DOMS if d[2] > 0]
+# a few domains whose arrays exceed 64 KiB / 16384 values (encoders that work block-wise, length headers beyond 16 bit)
+DOMS_BIG = [(131, 127, 0), (75, 77, 0), (22, 19, 17)]
 FMTS = [".10e", "e", ".3e", "f", ".5f", ".3f", "g", ".5g", ".12g", "+.4e", ".0f", ".17g"]
 SEPS = ["\t", ";", " ", " | ", ","]
 TAGS = ["rho", "u", "lam", "T", "vel", "xPhys", "g", "f"]
@@ -143,6 +145,9 @@ def _vti_input(rng, d, tag):
 
 def gen(rng, idx, tier):
     d = DOMS2[int(rng.integers(len(DOMS2)))] if rng.random() < 0.65 else DOMS3[int(rng.integers(len(DOMS3)))]
+    big = rng.random() < 0.04
+    if big:
+        d = DOMS_BIG[int(rng.integers(len(DOMS_BIG)))]
     unit = [float(rng.choice([1.0, 0.5, 2.0, 0.1, 1.25])) for _ in range(3)]
     case = dict(dom=dict(nel=list(d), unit=unit), writers=[], ops=[], fault=None)
     nw = int(rng.choice([1, 1, 2, 2, 3]))
@@ -165,9 +170,11 @@ def gen(rng, idx, tier):
                                         fmt=str(rng.choice(FMTS)), sep=str(rng.choice(SEPS)), inputs=inputs,
                                         stale=bool(rng.random() < 0.25)))
     nops = int(rng.integers(1, 13))
+    if big:
+        nops = min(nops, 3)
     for _ in range(nops):
         case["ops"].append(dict(w=int(rng.integers(0, 64)), seed=int(rng.integers(1 << 30))))
-    if rng.random() < 0.5:
+    if rng.random() < 0.5 and not big:
         case["fault"] = dict(at=int(rng.integers(0, 64)), points="all")
     return case
 
@@ -573,6 +580,8 @@ def execute(case, res, fault=None, sigcache=None):
     dim = dom_counts(d)[2]
     if dim == 3:
         probe("domain_3d")
+    if dom_counts(d)[1] * 4 > 65536:
+        probe("array_larger_than_64KiB")
 
     # ---- build the writers
     writers = []
